@@ -117,7 +117,7 @@ extern "C" const char* __lsan_default_options() { return "exitcode=0:print_suppr
 #endif
 #ifdef MC_TSAN
 extern "C" const char* __tsan_default_options() {
-  return "halt_on_error=1:exitcode=66:report_signal_unsafe=0:second_deadlock_stack=1:history_size=4";
+  return "halt_on_error=1:exitcode=66:report_signal_unsafe=0:detect_deadlocks=0:history_size=4";
 }
 #endif
 
